@@ -170,6 +170,8 @@ pub fn mutants(kind: &str, base: &[u8], seed: u64, thorough: bool) -> Vec<(Strin
             }
         }
     }
+    // structure-aware mutants (correct framing, degenerate content): empty lists everywhere
+    out.extend(structured(kind, base));
     // random strings and random splices
     let mut rng = Rng::new(seed ^ fnv(base));
     let n_rand = if thorough { 4000 } else { 600 };
@@ -186,6 +188,178 @@ pub fn mutants(kind: &str, base: &[u8], seed: u64, thorough: bool) -> Vec<(Strin
             b[..k.min(len)].copy_from_slice(&base[..k.min(len)]);
         }
         out.push((format!("random-{}", i % 4), b));
+    }
+    out
+}
+
+/// Mutants built through the wire writer: the framing stays valid, the content is degenerate.
+fn structured(kind: &str, base: &[u8]) -> Vec<(String, Vec<u8>)> {
+    let mut out: Vec<(String, Vec<u8>)> = vec![];
+    let xenc_variants = |w: &WXenc| -> Vec<(String, WXenc)> {
+        let mut v = vec![];
+        let mut m = w.clone();
+        m.traps.clear();
+        v.push(("no-traps".to_string(), m));
+        let mut m = w.clone();
+        m.encs.clear();
+        v.push(("no-entries".to_string(), m));
+        let mut m = w.clone();
+        m.traps.clear();
+        m.encs.clear();
+        v.push(("no-traps-no-entries".to_string(), m));
+        let mut m = w.clone();
+        m.traps.truncate(1);
+        v.push(("one-trap".to_string(), m));
+        let mut m = w.clone();
+        let t = m.traps.clone();
+        m.traps.extend(t);
+        v.push(("doubled-traps".to_string(), m));
+        v
+    };
+    match kind {
+        "xenc" => {
+            if let Ok(w) = WXenc::parse(base) {
+                for (n, m) in xenc_variants(&w) {
+                    out.push((format!("structured-{n}"), m.write()));
+                }
+            }
+        }
+        "header" => {
+            if let Ok(w) = WHeader::parse(base) {
+                for (n, m) in xenc_variants(&w.enc) {
+                    out.push((format!("structured-{n}"), WHeader { enc: m, meta: w.meta.clone() }.write()));
+                }
+                let mut m = w.clone();
+                m.meta = vec![0; 11];
+                out.push(("structured-metadata-shorter-than-nonce".into(), m.write()));
+                let mut m = w.clone();
+                m.meta = vec![0; 12];
+                out.push(("structured-metadata-nonce-only".into(), m.write()));
+            }
+        }
+        "usk" => {
+            if let Ok(w) = WUsk::parse(base) {
+                let mut m = w.clone();
+                m.id.clear();
+                out.push(("structured-no-markers".into(), m.write()));
+                let mut m = w.clone();
+                m.ps.clear();
+                out.push(("structured-no-tracing-points".into(), m.write()));
+                let mut m = w.clone();
+                m.chains.clear();
+                out.push(("structured-no-chains".into(), m.write()));
+                let mut m = w.clone();
+                m.chains.clear();
+                m.id.clear();
+                m.ps.clear();
+                m.sig = None;
+                out.push(("structured-empty-key".into(), m.write()));
+                let mut m = w.clone();
+                for c in &mut m.chains {
+                    c.1.clear();
+                }
+                out.push(("structured-all-chains-empty".into(), m.write()));
+                let mut m = w.clone();
+                m.chains.truncate(1);
+                m.chains[0].1.truncate(1);
+                out.push(("structured-single-secret".into(), m.write()));
+                let mut m = w.clone();
+                m.id.truncate(1);
+                out.push(("structured-one-marker".into(), m.write()));
+                let mut m = w.clone();
+                let i = m.id.clone();
+                m.id.extend(i);
+                out.push(("structured-doubled-markers".into(), m.write()));
+                let mut m = w.clone();
+                m.sig = None;
+                out.push(("structured-no-signature".into(), m.write()));
+                // very uneven chains
+                let mut m = w.clone();
+                if let Some(s) = m.chains.first().and_then(|c| c.1.first().cloned()) {
+                    for _ in 0..40 {
+                        m.chains[0].1.push(s.clone());
+                    }
+                    out.push(("structured-one-long-chain".into(), m.write()));
+                }
+            }
+        }
+        "mpk" => {
+            if let Ok(w) = WMpk::parse(base) {
+                let mut m = w.clone();
+                m.tpk.clear();
+                out.push(("structured-no-tracing-points".into(), m.write()));
+                let mut m = w.clone();
+                m.keys.clear();
+                out.push(("structured-no-keys".into(), m.write()));
+                let mut m = w.clone();
+                m.structure.dims.clear();
+                out.push(("structured-empty-structure".into(), m.write()));
+            }
+        }
+        "msk" => {
+            if let Ok(w) = WMsk::parse(base) {
+                let mut m = w.clone();
+                m.tracers.clear();
+                out.push(("structured-no-tracers".into(), m.write()));
+                let mut m = w.clone();
+                m.users.clear();
+                out.push(("structured-no-users".into(), m.write()));
+                let mut m = w.clone();
+                m.users.push(vec![]);
+                out.push(("structured-user-without-markers".into(), m.write()));
+                let mut m = w.clone();
+                m.chains.clear();
+                out.push(("structured-no-chains".into(), m.write()));
+                let mut m = w.clone();
+                for c in &mut m.chains {
+                    c.1.clear();
+                }
+                out.push(("structured-all-chains-empty".into(), m.write()));
+                let mut m = w.clone();
+                m.structure.dims.clear();
+                out.push(("structured-empty-structure".into(), m.write()));
+            }
+        }
+        "structure" => {
+            if let Ok(w) = WStruct::parse(base) {
+                let mut m = w.clone();
+                m.dims.clear();
+                out.push(("structured-no-dimensions".into(), {
+                    let mut o = vec![];
+                    m.write(&mut o);
+                    o
+                }));
+                let mut m = w.clone();
+                for d in &mut m.dims {
+                    d.attrs.clear();
+                }
+                out.push(("structured-dimensions-without-attributes".into(), {
+                    let mut o = vec![];
+                    m.write(&mut o);
+                    o
+                }));
+                let mut m = w.clone();
+                for d in &mut m.dims {
+                    for a in &mut d.attrs {
+                        a.id = u64::MAX;
+                    }
+                }
+                out.push(("structured-max-ids".into(), {
+                    let mut o = vec![];
+                    m.write(&mut o);
+                    o
+                }));
+                let mut m = w.clone();
+                m.version = 0;
+                m.next_id = None;
+                out.push(("structured-version-0".into(), {
+                    let mut o = vec![];
+                    m.write(&mut o);
+                    o
+                }));
+            }
+        }
+        _ => {}
     }
     out
 }
@@ -320,7 +494,7 @@ pub fn worker(bases_path: &str, shard: usize, nshards: usize, from: u64, seed: u
         eprintln!("worker: cannot load bases");
         std::process::exit(3);
     };
-    let h = Helpers {
+    let mut h = Helpers {
         cc: Covercrypt::default(),
         usks: bases.usks.iter().filter_map(|b| UserSecretKey::deserialize(b).ok()).collect(),
         encs: bases.encs.iter().filter_map(|b| XEnc::deserialize(b).ok()).collect(),
@@ -341,6 +515,10 @@ pub fn worker(bases_path: &str, shard: usize, nshards: usize, from: u64, seed: u
             let _ = pf.seek(std::io::SeekFrom::Start(0));
             let _ = pf.write_all(format!("{me:020}\n").as_bytes());
             let problems = run_mutant(kind, &bytes, &h, &mut st);
+            if problems.iter().any(|p| p.0.starts_with("panic")) {
+                // a panic inside a call poisons the instance's lock: do not let it cascade
+                h.cc = Covercrypt::default();
+            }
             st.shapes.insert(fnv(format!("{kind}|{label}|{}", op_class(&op)).as_bytes()));
             for (sig, detail) in problems {
                 let sig = if sig.starts_with("panic") { format!("{sig}:{}", msg_class(&detail)) } else { sig };
